@@ -534,8 +534,8 @@ func C01(c *ev.Ctx) {
 	if !c.Quick() {
 		wordSelfTest(c)
 	}
-	npk := c.Pick(40, 600)
-	batch := 40
+	npk := c.Pick(56, 600)
+	batch := 56
 	var all []tvDisagreement
 	var tot tvStats
 	keysSeen := map[string]bool{}
